@@ -4,5 +4,5 @@ CONSTANTS
   MaxTamper = 2
   HashModel = "tuple"
   PLens = {0}
-INVARIANTS AcceptIffUnchanged IdAgreement Emit
+INVARIANTS AcceptIffUnchanged IdAgreement NoBothEnds OnlyRightful Emit
 CHECK_DEADLOCK FALSE
